@@ -270,6 +270,35 @@ def cast_probe(st):
     return out
 
 
+def sum_tie_probe(st):
+    """The general path sorts rows by the float32-rounded SUM of their columns and admits them in
+    that order.  z3 (FP theory) picks a large x and small y1 > y2 > 0 whose row sums round to the
+    same float32, so the dominated row (x, y1, y1) placed FIRST is admitted before its dominator
+    (x, y2, y2); the compiled filter is then run on that matrix."""
+    out = []
+    x, y1, y2 = z3.FP("x", I.FP32), z3.FP("y1", I.FP32), z3.FP("y2", I.FP32)
+    s = z3.Solver()
+    def rsum(a, b):      # float64 accumulation, rounded to float32 when stored (as the kernel's source does)
+        acc = z3.fpAdd(I.RNE, z3.fpAdd(I.RNE, z3.fpAdd(I.RNE, z3.FPVal(0.0, I.FP64), I.fp_to(a, I.FP64)), I.fp_to(b, I.FP64)), I.fp_to(b, I.FP64))
+        return I.fp_to(acc, I.FP32)
+    s.add(z3.fpGT(x, z3.FPVal(1000.0, I.FP32)), z3.fpLT(x, z3.FPVal(1e12, I.FP32)), z3.fpGT(y2, z3.FPVal(0.5, I.FP32)), z3.fpGT(y1, y2),
+          z3.fpLT(y1, z3.FPVal(64.0, I.FP32)), z3.fpEQ(rsum(x, y1), rsum(x, y2)))
+    if z3_check(s, st, 120000) != "sat":
+        st.extra["sum_tie_probe"] = "no witness"
+        return out
+    m = s.model()
+    xv, a, b = fp_value(m, x), fp_value(m, y1), fp_value(m, y2)
+    mat = [[xv, a, a], [xv, b, b], [0.0, 100.0, 100.0]]
+    got = real_mask(mat, [[0, 1, 2]])
+    exp = brute(mat, [[0, 1, 2]])
+    count_obligation(st, "unsat" if got == exp else "sat", "float32 sum-tie probe")
+    st.queries += 1
+    if got != exp:
+        out.append(dict(property=PID, matrix=mat, groups=[[0, 1, 2]], mode="fp32", kept=got, expected=exp, key="float32-sum-tie",
+                        what=f"fast_pareto_mask keeps {got}, non-dominated rows are {exp} for {mat} (row sums tie in float32, the dominated row comes first)"))
+    return out
+
+
 def run(args):
     t0 = time.time()
     if args.replay:
@@ -289,7 +318,7 @@ def run(args):
                   (2, 2, "fp32", [[0, 1]]), (3, 2, "fp32", [[0, 1, 2]]), (3, 3, "fp32", [[0, 1, 2]]), (4, 2, "fp32", [[0, 1, 2, 3]]), (4, 3, "fp32", [[0, 1, 2, 3]])]
     stats = Stats()
     violations = []
-    known_recs = cast_probe(stats)
+    known_recs = cast_probe(stats) + sum_tie_probe(stats)
     for n_, mode_ in ((3, "real"), (4, "real"), (3, "fp32")):
         violations.extend(is_constant_obligation(n_, mode_, stats))
     res = run_sharded(shard, [(n, d, mode, g, True) for n, d, mode, g in shapes], args.jobs)
